@@ -458,6 +458,8 @@ def judge(ctx, tx, after, region, step, case):
                               f'before={short(before, 300)!r} after={short(after, 300)!r}', case)
             elif t.type == tokenize.COMMENT and step['ptype'] == 'BoolOp' and step['field'] == 'values':
                 ctx.violation('boolop-operand-edit-drops-comment-next-to-removed-operator', f'{step["op"]} on BoolOp.values opts={step["opts"]}: comment {t.string!r} (line {t.start[0]}) between an operand and the operator removed with it is gone although the trivia option does not select it; before={short(before, 260)!r} after={short(after, 260)!r}', case)
+            elif t.type == tokenize.COMMENT and step['kind'] not in ('stmt', 'handler', 'case'):
+                ctx.violation('exprlike-edit-loses-comment-not-selected-by-trivia', f'{step["op"]} on {step["ptype"]}.{step["field"]} ({step["ttype"]}) opts={step["opts"]}: comment {t.string!r} (line {t.start[0]}) outside the element and not selected by the trivia option is gone; before={short(before, 260)!r} after={short(after, 260)!r}', case)
             elif t.type == tokenize.COMMENT:
                 ctx.violation(f'comment-outside-edited-element-lost:{step["op"]}:{step["kind"]}',
                               f'{step["op"]} on {step["ptype"]}.{step["field"]} ({step["ttype"]}) opts={step["opts"]}: comment {t.string!r} (line {t.start[0]}) is neither inside the element {short(before[e0:e1], 80)!r} nor selected by '
@@ -489,7 +491,7 @@ def judge(ctx, tx, after, region, step, case):
                 continue   # tokens were inserted on / moved to that line: not a pure whitespace change
             strip_cont = lambda l: l.rstrip()[:-1].rstrip() if l.rstrip().endswith('\\') else l.rstrip()
             rl0, rl1 = before.count('\n', 0, r0) + 1, before.count('\n', 0, r1) + 1
-            if alines[aln - 1] != blines[ln - 1] and strip_cont(alines[aln - 1]) == strip_cont(blines[ln - 1]) and rl0 - 1 <= ln <= rl1 + 1:
+            if alines[aln - 1] != blines[ln - 1] and strip_cont(alines[aln - 1]) == strip_cont(blines[ln - 1]):
                 continue   # only the line-continuation / trailing blanks directly adjoining the edited region changed
             if alines[aln - 1] != blines[ln - 1] and blines[ln - 1] in alines[max(0, aln - 40):aln + 40]:
                 ctx.count('line_alignment_ambiguous(identical text inserted nearby)')
